@@ -1549,6 +1549,45 @@ def selftest():
         ok, rej, _ = validate_trace(scratch, "LaTrace", groups, "self_l1")
         if not ok or {x[0] for x in rej} != {4}:
             failures.append("LaTrace corruption test: rejected %s" % rej)
+        # 5. recovery traces (RecTrace.tla): callbacks against the oracle, recorded search against the machine
+        cur = {e["id"]: e for e in _corpus.curated()}
+        ents2 = [dict(cur["stmts"], inputs=[[1, 2, 1, 1, 2, 1, 2], [1, 1, 2, 2, 1, 2], [2, 1, 2]], maxlen=0), _corpus.nested_error_family()[2]]
+        ents2[1] = dict(ents2[1], inputs=ents2[1]["inputs"][:12])
+        rblocks, rmeta = [], {}
+        for e in ents2:
+            vec = {"id": e["id"], "terms": e["terms"], "rules": e["rules"], "dn": [], "ds": [], "cases": [{"w": w, "sent": False, "nd": 0, "fo": -1} for w in e["inputs"]]}
+            bb = blocks_from_vector(vec, [(0, 1, 0, 1, 2, 0)], mems=(1,), want_trees=False)
+            rblocks.append([ln.replace("X sent=0 nd=-1", "X sent=-1") if ln.startswith("X ") else ln for ln in bb])
+            rmeta[e["id"]] = e
+        rrecs, st = run_harness(os.path.join(b[0], "yv_replay"), rblocks, args=("-t", "-s"))
+        rl = []
+        for r in rrecs:
+            if r.get("k") != "parse" or not r["calls"]:
+                continue
+            e = rmeta[r["g"]]
+            c2n = {code(t["c"]): t["n"] for t in e["terms"]}
+            base = {"terms": [t["n"] for t in e["terms"]], "rules": e["rules"], "w": [c2n[c] for c in r["toks"]], "match": r["match"], "la": 0}
+            rl.append(dict(base, id=r["w"] + "/o", kind="oracle", calls=[c[:3] for c in r["calls"]]))
+            rl.append(dict(base, id=r["w"] + "/m", kind="mach", pops=[[ev["a"], ev["b"], ev["c"], ev["d"], ev["e"]] for ev in r["ev"] if ev["k"] == 4],
+                           recs=[[ev["a"], ev["b"], ev["c"], ev["d"], ev["e"]] for ev in r["ev"] if ev["k"] == 3]))
+        cfgx = "CONSTANTS\n  GrammarsR <- DummyG\n  InputsR <- DummyI\n  MatchVals = {1}\n"
+        ok, rej, _ = validate_trace(scratch, "RecTrace", rl, "self_r0", cfg_extra=cfgx)
+        if not ok or rej or len(rl) < 8:
+            failures.append("RecTrace rejects untouched lines (or too few lines: %d): %s" % (len(rl), rej[:2]))
+        bad = copy.deepcopy(rl)
+        k1 = next(i for i, ln in enumerate(bad) if ln["kind"] == "oracle")
+        bad[k1]["calls"][0][2] += 3                          # three more tokens reported as ignored
+        k2 = next(i for i, ln in enumerate(bad) if ln["kind"] == "oracle" and i != k1 and ln["calls"][0][0] > 0)
+        bad[k2]["calls"][0][0] -= 1                          # error token moved
+        k3 = next(i for i, ln in enumerate(bad) if ln["kind"] == "mach" and len(ln["pops"]) >= 2)
+        del bad[k3]["pops"][1]                               # a REC_POP hook event is missing
+        k4 = next(i for i, ln in enumerate(bad) if ln["kind"] == "mach" and i != k3 and ln["pops"])
+        bad[k4]["pops"][0][2] += 1                           # cost of a popped state
+        ok, rej, _ = validate_trace(scratch, "RecTrace", bad, "self_r1", cfg_extra=cfgx)
+        got = {x[0]: x[2] for x in rej}
+        want = {k1 + 1: "C08", k2 + 1: "C06", k3 + 1: "DRIFT", k4 + 1: "DRIFT"}
+        if not ok or set(got) != set(want) or any(not any(y.startswith(pref) for y in got.get(k, [])) for k, pref in want.items()):
+            failures.append("RecTrace corruption test: wanted %s, rejected %s" % (want, {k: v[:1] for k, v in got.items()}))
     finally:
         scratch.cleanup()
     for f in failures:
